@@ -1290,3 +1290,76 @@ Example C06_7_class_exact_inhabited :
   /\ psm_extend_loop true STSpecialNotFile 8 (B "http://h" ++ B "/a/b") [[120; 9; 46]] = Some (B "http://h/a/b/x.")
   /\ push_text STSpecialNotFile (B "/a/b") [120; 9; 46] = B "/a/b/x.".
 Proof. repeat split; vm_compute; reflexivity. Qed.
+
+(* 26. path_segments_mut sessions and set_ip_host as STEPS of the histories (Proofs/C06_PushCanon.v, C06_AllPsm.v).
+   C06_psm_canon: a whole session - any sequence of clear / pop / pop_if_empty / push / extend, arguments outside
+   F-C06-7 - on a canonical record (C02's Canon) with an authority returns a canonical record: the exact evaluation of
+   section 25 is an operation on the canonical path (segments, last segment), and a pushed segment is a good segment
+   of the class (clean for PATH, no '/', no '\' for special schemes, not a dot segment).
+   ReachC6p (C06_AllPsm.v) = the histories of C06_all (ReachC6) + path_segments_mut sessions on URLs with an
+   authority + every step of C02's ReachC3 (C02_Reach4.canon_op3 outside C02's known step classes: set_ip_host,
+   set_host(Some), set_scheme, quirks protocol, set_path / quirks pathname with ANY &str on a URL with an authority).
+   C06_all_p: every record of such a history is Canon, wfh, auth_end_ok, satisfies all_calls (C06_all) and
+   psm_calls: a session returns a canonical record, which is with_path u (session_text ..) - path read-back explicit -
+   with scheme / username / password / host / port / query / fragment unchanged.
+   Hypotheses on the host functions: HostOK2 (C02: HostRT, host_above and the clause for the values set_ip_host is
+   given) and host_nonempty (needed by C02's set_host(Some) step); the host model meets them (example below). *)
+From RU Require Import Model.Host Proofs.C02_Hist Proofs.C16_RT6Model Proofs.C02_SetHostCanon Proofs.C02_Reach4 Proofs.C06_PushCanon Proofs.C06_AllPsm
+  Proofs.C06_PsmEx.
+
+Theorem C06_psm_canon : forall dbg hp hpo hd u ops u', HostRT hp hpo hd -> Canon hp hpo hd u ->
+  has_authority_b u = true -> Forall psm_op_usv ops -> Forall psm_op_plain ops ->
+  path_segments_session dbg u ops = Some (u', SOk) -> nlen (ser u') <= U32_MAX_P -> Canon hp hpo hd u'.
+Proof. intros dbg hp hpo hd u ops u' HRT. exact (psm_Canon dbg hp hpo hd HRT u ops u'). Qed.
+Check C06_psm_canon : forall dbg hp hpo hd u ops u', HostRT hp hpo hd -> Canon hp hpo hd u ->
+  has_authority_b u = true -> Forall psm_op_usv ops -> Forall psm_op_plain ops ->
+  path_segments_session dbg u ops = Some (u', SOk) -> nlen (ser u') <= U32_MAX_P -> Canon hp hpo hd u'.
+Print Assumptions C06_psm_canon.
+
+Definition C06_all_p_statement : Prop := forall dbg hp hpo hd u, HostOK2 hp hpo hd -> host_nonempty hp hpo ->
+  ReachC6p dbg hp hpo hd u ->
+  Canon hp hpo hd u /\ wfh u /\ auth_end_ok u /\ all_calls dbg hp hpo hd u /\ psm_calls dbg hp hpo hd u.
+
+Theorem C06_all_p : C06_all_p_statement.
+Proof. intros dbg hp hpo hd u HOK HNE. exact (all_reach_p dbg hp hpo hd HOK HNE u). Qed.
+Check C06_all_p : forall dbg hp hpo hd u, HostOK2 hp hpo hd -> host_nonempty hp hpo ->
+  ReachC6p dbg hp hpo hd u ->
+  Canon hp hpo hd u /\ wfh u /\ auth_end_ok u /\ all_calls dbg hp hpo hd u /\ psm_calls dbg hp hpo hd u.
+Print Assumptions C06_all_p.
+
+(* psm_calls spelled out (pin of the definition) *)
+Theorem C06_psm_calls_unfold : forall dbg hp hpo hd u, psm_calls dbg hp hpo hd u <->
+  (forall ops u', has_authority_b u = true -> Forall psm_op_usv ops -> Forall psm_op_plain ops ->
+    path_segments_session dbg u ops = Some (u', SOk) -> nlen (ser u') <= U32_MAX_P ->
+    Canon hp hpo hd u' /\ u' = with_path u (session_text (st_of u) (path_bytes u) ops)
+    /\ path u = Some (path_bytes u) /\ path u' = Some (session_text (st_of u) (path_bytes u) ops)
+    /\ same_front dbg u u' /\ query dbg u' = query dbg u /\ fragment dbg u' = fragment dbg u).
+Proof. intros. reflexivity. Qed.
+Check C06_psm_calls_unfold : forall dbg hp hpo hd u, psm_calls dbg hp hpo hd u <->
+  (forall ops u', has_authority_b u = true -> Forall psm_op_usv ops -> Forall psm_op_plain ops ->
+    path_segments_session dbg u ops = Some (u', SOk) -> nlen (ser u') <= U32_MAX_P ->
+    Canon hp hpo hd u' /\ u' = with_path u (session_text (st_of u) (path_bytes u) ops)
+    /\ path u = Some (path_bytes u) /\ path u' = Some (session_text (st_of u) (path_bytes u) ops)
+    /\ same_front dbg u u' /\ query dbg u' = query dbg u /\ fragment dbg u' = fragment dbg u).
+Print Assumptions C06_psm_calls_unfold.
+
+(* the histories of C06_all and of C02's ReachC3 are among them *)
+Theorem C06_reach_c6_c3_p : forall dbg hp hpo hd u, HostOK2 hp hpo hd ->
+  (ReachC6 dbg hp hpo hd u -> ReachC6p dbg hp hpo hd u) /\ (ReachC3 dbg hp hpo hd u -> ReachC6p dbg hp hpo hd u).
+Proof. intros dbg hp hpo hd u HOK. split; [apply ReachC6_C6p | apply ReachC3_C6p]. Qed.
+Check C06_reach_c6_c3_p : forall dbg hp hpo hd u, HostOK2 hp hpo hd ->
+  (ReachC6 dbg hp hpo hd u -> ReachC6p dbg hp hpo hd u) /\ (ReachC3 dbg hp hpo hd u -> ReachC6p dbg hp hpo hd u).
+Print Assumptions C06_reach_c6_c3_p.
+
+(* non-vacuity, on the host model with the IDNA oracle idna_clean:
+   parse "http://h/a/b" ; path_segments_mut { push("x<TAB>y"), pop, extend(["..", "c d"]) } ; set_ip_host(127.0.0.1) *)
+Example C06_all_p_inhabited :
+  HostOK2 (host_parse idna_clean) host_parse_opaque host_display /\ host_nonempty (host_parse idna_clean) host_parse_opaque
+  /\ exists u0 u1 u2, parse_url true (host_parse idna_clean) host_parse_opaque host_display None None (B "http://h/a/b") = POk u0
+    /\ path_segments_session true u0 ex7_ops = Some (u1, SOk)
+    /\ ReachC6p true (host_parse idna_clean) host_parse_opaque host_display u1
+    /\ ser u1 = B "http://h/a/b/c%20d"
+    /\ set_ip_host true host_display u1 (HIpv4 2130706433) = Some (u2, SOk)
+    /\ ReachC6p true (host_parse idna_clean) host_parse_opaque host_display u2
+    /\ ser u2 = B "http://127.0.0.1/a/b/c%20d".
+Proof. exact reach6p_inhabited. Qed.
